@@ -39,6 +39,13 @@ type bodyRun struct {
 	ct       *Contract
 	prefix   string
 	assertHits map[int]int
+	writeRanges []writeRange
+}
+
+// writeRange: inside loop li, stores into region ref (heap key) must stay within [lo,hi).
+type writeRange struct {
+	key, ref, lo, hi string
+	li               *loopInfo
 }
 
 // findLoops computes natural loops; ordinals follow header block index.
@@ -110,9 +117,6 @@ func (fc *FnCtx) execBody(fn *ssa.Function, st0 *State, ct *Contract, prefix str
 	if len(fn.Blocks) == 0 {
 		unsup("function %s has no body", fn)
 	}
-	if fn.Recover != nil {
-		unsup("function %s uses recover", fn)
-	}
 	br := &bodyRun{fc: fc, fn: fn, edges: map[edgeKey]*State{}, loops: findLoops(fn), onReturn: onReturn,
 		blockSt: map[*ssa.BasicBlock]*State{}, ct: ct, prefix: prefix, assertHits: map[int]int{}}
 	order := rpo(fn)
@@ -143,10 +147,15 @@ func (br *bodyRun) mergeStates(sts []*State) *State {
 		gs = append(gs, s.guard)
 	}
 	m.guard = fc.smt.defineAlways("g", "Bool", or(gs...))
+	var ls []string
+	for _, s := range sts {
+		ls = append(ls, s.liteG())
+	}
+	m.lite = fc.smt.defineAlways("gl", "Bool", or(ls...))
 	// alloc
 	m.alloc = sts[len(sts)-1].alloc
 	for i := len(sts) - 2; i >= 0; i-- {
-		m.alloc = ite(sts[i].guard, sts[i].alloc, m.alloc)
+		m.alloc = ite(sts[i].liteG(), sts[i].alloc, m.alloc)
 	}
 	m.alloc = fc.smt.define("alloc", "Int", m.alloc)
 	sameBase := true
@@ -185,7 +194,7 @@ func (br *bodyRun) mergeStates(sts []*State) *State {
 			if ti != t {
 				same = false
 			}
-			t = ite(sts[i].guard, ti, t)
+			t = ite(sts[i].liteG(), ti, t)
 		}
 		if same {
 			m.heap[k] = fc.heapSym(sts[0], k, srt)
@@ -229,7 +238,7 @@ func (br *bodyRun) enter(b *ssa.BasicBlock) *State {
 			if v == nil {
 				v = ev
 			} else {
-				v = iteVal(phi.Type(), sts[k].guard, ev, v)
+				v = iteVal(phi.Type(), sts[k].liteG(), ev, v)
 			}
 		}
 		fc.vals[phi] = fc.nameVal(phi.Type(), v, "phi_"+phi.Comment)
@@ -371,11 +380,49 @@ func (br *bodyRun) havocLoop(li *loopInfo, st *State) {
 		st.alloc = na
 	}
 	for _, k := range keys {
+		if len(k.regions) > 0 && !fc.isStableKey(k.key) {
+			// only the regions of loop-invariant slices are written: forget just those
+			fc.keySort[k.key] = k.sort
+			h := fc.heapSym(st, k.key, k.sort)
+			inner := strings.TrimSuffix(strings.TrimPrefix(k.sort, "(Array Int "), ")")
+			seen := map[string]bool{}
+			for _, v := range k.regions {
+				s, ok := fc.val(v).(SliceV)
+				if !ok || seen[s.Ref] {
+					continue
+				}
+				seen[s.Ref] = true
+				na := fc.smt.declare("loopreg", inner)
+				// "loop N modifies s[lo:hi]": elements outside the range keep their value
+				for _, c := range br.loopClauses(li.ordinal, "modifies") {
+					env := br.envAt(li.head, phiCount(li.head), st, nil)
+					tv := env.eval(c.E)
+					ms, ok := tv.V.(SliceV)
+					if !ok || ms.Ref != s.Ref {
+						continue
+					}
+					lo := fc.smt.define("wlo", bvsort(64), ms.Off)
+					hi := fc.smt.define("whi", bvsort(64), app("bvadd", ms.Off, ms.Len))
+					old := fc.smt.defineAlways("wold", inner, app("select", fc.heapSym(st, k.key, k.sort), s.Ref))
+					j := fc.smt.freshName("j")
+					fc.smt.addExtra(na, fmt.Sprintf("(forall ((%s (_ BitVec 64))) (! (=> (not (and (bvsle %s %s) (bvslt %s %s))) (= (select %s %s) (select %s %s))) :pattern ((select %s %s))))", j, lo, j, j, hi, na, j, old, j, na, j))
+					br.writeRanges = append(br.writeRanges, writeRange{key: k.key, ref: s.Ref, lo: lo, hi: hi, li: li})
+					break
+				}
+				h = app("store", h, s.Ref, na)
+			}
+			fc.touched[k.key] = true
+			st.heap[k.key] = fc.smt.defineAlways("H_"+k.key, k.sort, h)
+			continue
+		}
 		fc.havocKey(st, k.key, k.sort)
 	}
 }
 
-type keySort struct{ key, sort string }
+type keySort struct {
+	key, sort string
+	regions   []ssa.Value // when non-empty: only these slices' regions are written
+}
 
 func (br *bodyRun) loopAllocates(li *loopInfo) bool {
 	for b := range li.blocks {
@@ -393,7 +440,15 @@ func (br *bodyRun) loopAllocates(li *loopInfo) bool {
 func (br *bodyRun) modifiedKeys(li *loopInfo) ([]keySort, bool) {
 	fc := br.fc
 	set := map[string]string{}
+	regs := map[string][]ssa.Value{}
+	regSort := map[string]string{}
 	all := false
+	outside := func(v ssa.Value) bool {
+		if ins, ok := v.(ssa.Instruction); ok {
+			return ins.Block() != nil && !li.blocks[ins.Block()]
+		}
+		return true
+	}
 	addType := func(space string, root types.Type, names string, t types.Type) {
 		for _, l := range leavesOf(t) {
 			set[space+"|"+typeName(root)+names+l.Suffix] = arrSort(space == "elem", l.Sort)
@@ -429,6 +484,16 @@ func (br *bodyRun) modifiedKeys(li *loopInfo) ([]keySort, bool) {
 		for _, ins := range b.Instrs {
 			switch x := ins.(type) {
 			case *ssa.Store:
+				if ia, ok := x.Addr.(*ssa.IndexAddr); ok {
+					if sl, isSlice := ia.X.Type().Underlying().(*types.Slice); isSlice && outside(ia.X) {
+						for _, l := range leavesOf(sl.Elem()) {
+							k := "elem|" + typeName(sl.Elem()) + l.Suffix
+							regs[k] = append(regs[k], ia.X)
+							regSort[k] = arrSort(true, l.Sort)
+						}
+						continue
+					}
+				}
 				if a, ok := x.Addr.(*ssa.Alloc); ok && !a.Heap {
 					if _, isArr := a.Type().(*types.Pointer).Elem().Underlying().(*types.Array); !isArr {
 						addrKeys(x.Addr)
@@ -483,7 +548,12 @@ func (br *bodyRun) modifiedKeys(li *loopInfo) ([]keySort, bool) {
 	}
 	var out []keySort
 	for k, s := range set {
-		out = append(out, keySort{k, s})
+		out = append(out, keySort{key: k, sort: s})
+	}
+	for k, vs := range regs {
+		if _, whole := set[k]; !whole {
+			out = append(out, keySort{key: k, sort: regSort[k], regions: vs})
+		}
 	}
 	sort.Slice(out, func(i, j int) bool { return out[i].key < out[j].key })
 	return out, all
@@ -668,6 +738,7 @@ func (br *bodyRun) setEdge(b *ssa.BasicBlock, slot int, st *State, cond string) 
 	es := st.clone()
 	if cond != "true" {
 		es.guard = fc.smt.defineAlways("g", "Bool", and(st.guard, cond))
+		es.lite = fc.smt.defineAlways("gl", "Bool", and(st.liteG(), cond))
 	}
 	if isBackEdge(b, to) {
 		li := br.loops[to]
@@ -818,11 +889,12 @@ func (fc *FnCtx) oblige(st *State, goal, name, kind string, pos token.Pos, desc 
 			Guard: st.guard, Goal: goal, Expect: "unsat", Result: SolverResult{Status: "unsat", Solver: "trivial"}})
 		return
 	}
-	if fc.light && kind != "pre-of" && kind != "assert" {
+	if fc.light && (kind != "pre-of" && kind != "assert" || strings.HasSuffix(name, "receiver-non-nil")) {
 		return
 	}
 	ob := &Obligation{Name: name, Kind: kind, Fn: fc.fnKey(), Pos: fc.posStr(pos), Desc: desc, Guard: st.guard, Goal: goal, Expect: "unsat", Clause: fc.curClause}
-	ob.Query = fc.buildQuery(st.guard, not(goal))
+	ob.Query = fc.buildQuery(st.guard, not(goal), false)
+	ob.QueryLite = fc.buildQuery(st.liteG(), not(goal), true)
 	fc.obs = append(fc.obs, ob)
 	// later code on this path may rely on the checked fact
 	fc.assume(st, goal)
@@ -830,15 +902,20 @@ func (fc *FnCtx) oblige(st *State, goal, name, kind string, pos token.Pos, desc 
 
 func (fc *FnCtx) cover(st *State, name string, pos token.Pos, desc string) {
 	ob := &Obligation{Name: name, Kind: "cover", Fn: fc.fnKey(), Pos: fc.posStr(pos), Desc: desc, Guard: st.guard, Goal: "true", Expect: "sat"}
-	ob.Query = fc.buildQuery(st.guard, "true")
+	ob.Query = fc.buildQuery(st.guard, "true", false)
 	fc.obs = append(fc.obs, ob)
 }
 
-func (fc *FnCtx) buildQuery(guard, negGoal string) string {
+func (fc *FnCtx) buildQuery(guard, negGoal string, lite bool) string {
 	var b strings.Builder
+	fc.smt.liteSlice = lite
+	defer func() { fc.smt.liteSlice = false }()
 	body := fc.smt.slice(guard, negGoal)
 	// congruence for opaque content functions among applications present in the query
-	cong := fc.congruence(body + guard + negGoal)
+	cong := ""
+	if !lite {
+		cong = fc.congruence(body + guard + negGoal)
+	}
 	if cong != "" {
 		body = fc.smt.slice(guard, negGoal, cong)
 	}
